@@ -15,6 +15,7 @@ import (
 	ctrl "sigs.k8s.io/controller-runtime"
 	"sigs.k8s.io/controller-runtime/pkg/client"
 	"sigs.k8s.io/controller-runtime/pkg/client/fake"
+	"sigs.k8s.io/controller-runtime/pkg/client/interceptor"
 
 	configv1 "github.com/istio-ecosystem/authservice/config/gen/go/v1"
 	oidcv1 "github.com/istio-ecosystem/authservice/config/gen/go/v1/oidc"
@@ -89,7 +90,17 @@ func c19Prop(c *sim.Case) {
 	for i, f := range fs {
 		full.Chains = append(full.Chains, &configv1.FilterChain{Name: fmt.Sprint(i), Filters: []*configv1.Filter{{Type: &configv1.Filter_Oidc{Oidc: f.w.Cfg}}}})
 	}
-	kc := fake.NewClientBuilder().Build()
+	// Secrets deleted with a grace period: the API server reports a deletion time that still lies ahead (the fake
+	// client can only stamp "now", so the time is put forward on the way out)
+	grace := map[types.NamespacedName]time.Time{}
+	kc := fake.NewClientBuilder().WithInterceptorFuncs(interceptor.Funcs{Get: func(ctx context.Context, cl client.WithWatch, key client.ObjectKey, obj client.Object, opts ...client.GetOption) error {
+		err := cl.Get(ctx, key, obj, opts...)
+		if ts, ok := grace[key]; ok && err == nil && !obj.GetDeletionTimestamp().IsZero() {
+			t := metav1.NewTime(ts)
+			obj.SetDeletionTimestamp(&t)
+		}
+		return err
+	}}).Build()
 	ctl, err := k8s.NewSecretControllerForVerification(full, ns, kc)
 	if cross {
 		c.Class("cross-namespace-reference")
@@ -196,18 +207,14 @@ func c19Prop(c *sim.Case) {
 		case "deleting":
 			if exists && cur.DeletionTimestamp.IsZero() {
 				if sim.Weighted(c, "deleting.grace", 2, 1) == 1 {
-					// deleted with a grace period: the deletion time lies ahead, the object is terminating all the same
-					// (changed and deleted in quick succession: what the terminating object holds was never applied)
+					// changed and deleted with a grace period in quick succession: the deletion time lies ahead, the object
+					// is terminating all the same, and what it holds was never applied
 					ctr++
-					data := map[string][]byte{"client-secret": []byte(fmt.Sprintf("terminating-%d", ctr))}
-					cur.Finalizers = nil
+					cur.Data = map[string][]byte{"client-secret": []byte(fmt.Sprintf("terminating-%d", ctr))}
+					cur.Finalizers = []string{"verif/hold"}
 					_ = kc.Update(ctx, cur)
 					_ = kc.Delete(ctx, cur)
-					ts := metav1.NewTime(time.Now().Add(time.Duration(1+sim.Pick(c, "deleting.grace.s", 3600)) * time.Second))
-					obj := &corev1.Secret{ObjectMeta: metav1.ObjectMeta{Name: key.Name, Namespace: key.Namespace, Finalizers: []string{"verif/hold"}, DeletionTimestamp: &ts}, Data: data}
-					if err := kc.Create(ctx, obj); err != nil {
-						panic(fmt.Sprintf("harness: cannot create a terminating Secret: %v", err))
-					}
+					grace[key] = time.Now().Add(time.Duration(1+sim.Pick(c, "deleting.grace.s", 3600)) * time.Second)
 					c.Class("deleting-with-grace-period")
 				} else {
 					cur.Finalizers = []string{"verif/hold"}
@@ -216,6 +223,7 @@ func c19Prop(c *sim.Case) {
 				}
 			}
 		case "delete":
+			delete(grace, key)
 			if exists {
 				cur.Finalizers = nil
 				_ = kc.Update(ctx, cur)
